@@ -1,7 +1,10 @@
 package props
 
 import (
+	"bytes"
 	"crypto/x509"
+	"crypto/x509/pkix"
+	"encoding/asn1"
 	"fmt"
 	"math/big"
 	"time"
@@ -11,7 +14,7 @@ import (
 )
 
 func C05(c *core.Ctx) {
-	c.Rule = "otherwise valid worlds with revocation checking: revoked-serial sets containing the leaf / intermediate / TCB-signer serial, near misses (+-1, same low bytes, prefix), hundreds of entries; CRLs signed by the right CA, by the other CA, by a same-named look-alike CA; endpoint outcomes (error, garbage, CRL of another issuer, expired), several root CRL distribution points with some failing or none; issuer-chain header faults of the PCK CRL; all four option combinations (revocation without collateral must fail). Ground truth: with revocation on, acceptance implies both CRLs were served, are signed by the chain's root / intermediate, and list none of the four serials. non-trivial = revocation checking on; distinct = distinct (world, responses, options)"
+	c.Rule = "otherwise valid worlds with revocation checking: revoked-serial sets containing the leaf / intermediate / TCB-signer serial, near misses (+-1, same low bytes, prefix), hundreds of entries; CRLs signed by the right CA, by the other CA, by a same-named look-alike CA; after a genuine revoking list has been verified in the same process, lists without the serial that carry the genuine signature value or differ from the genuine list in one bit; endpoint outcomes (error, garbage, CRL of another issuer, expired), several root CRL distribution points with some failing or none; issuer-chain header faults of the PCK CRL; all four option combinations (revocation without collateral must fail). Ground truth: with revocation on, acceptance implies both CRLs were served, are signed by the chain's root / intermediate, and list none of the four serials. non-trivial = revocation checking on; distinct = distinct (world, responses, options)"
 	r := c.Rng
 	day := 24 * time.Hour
 	type crlSpec struct {
@@ -129,6 +132,58 @@ func C05(c *core.Ctx) {
 				x.Header = map[string][]string{world.PckCrlIssuerChainHeader: {pki.IssuerChainHeader(other.Inter, hdrRoot)}}
 				resp[pckURL] = x
 			}, 0)
+		}
+		// a genuine CRL that lists the serial is served first (rejected); then a list without the
+		// serial under the same issuer name carrying the genuine list's signature value, and the
+		// genuine list with the entry's serial altered in place: neither is authentic
+		{
+			type certList struct {
+				TBS asn1.RawValue
+				Alg pkix.AlgorithmIdentifier
+				Sig asn1.BitString
+			}
+			paste := func(genuine, other []byte) []byte {
+				var g, o certList
+				if _, err := asn1.Unmarshal(genuine, &g); err != nil {
+					panic(err)
+				}
+				if _, err := asn1.Unmarshal(other, &o); err != nil {
+					panic(err)
+				}
+				o.Sig, o.Alg = g.Sig, g.Alg
+				out, err := asn1.Marshal(o)
+				if err != nil {
+					panic(err)
+				}
+				return out
+			}
+			alter := func(genuine []byte, serial *big.Int) []byte {
+				out := append([]byte{}, genuine...)
+				sb := serial.Bytes()
+				if i := bytes.Index(out, sb); i >= 0 {
+					out[i+len(sb)-1] ^= 1
+				}
+				return out
+			}
+			for _, k := range []struct {
+				name   string
+				url    string
+				signer *world.Cert
+				forger *world.Cert
+				serial *big.Int
+			}{{"PCK CRL / leaf", pckURL, pki.Inter, other.Inter, leafS}, {"Root CA CRL / intermediate", rootURL, pki.Root, other.Root, interS}} {
+				k := k
+				genuine := mkCRL(crlSpec{k.signer, append(unrelated(1), k.serial), next})
+				emptied := mkCRL(crlSpec{k.forger, unrelated(1), next})
+				c.Lookahead = 3 // the later cases of this group depend on the earlier ones having run
+				try("pasted-signature", k.name+": the genuine list that revokes the serial", true, true, set(k.url, genuine), 0)
+				c.Lookahead = 2
+				try("pasted-signature", k.name+": a list without the serial carrying the genuine list's signature", true, true, set(k.url, paste(genuine, emptied)), 0)
+				c.Lookahead = 1
+				try("pasted-signature", k.name+": the genuine list with the revoked serial's last bit flipped", true, true, set(k.url, alter(genuine, k.serial)), 0)
+				c.Lookahead = 0
+				try("pasted-signature", k.name+": the genuine list again", true, true, set(k.url, genuine), 0)
+			}
 		}
 		// near misses
 		low := new(big.Int).SetBytes(leafS.Bytes()[len(leafS.Bytes())-8:])
